@@ -1075,6 +1075,49 @@ class ConformantGen(TM.Gen):
         return bytes(t)
 
 
+def gen_tageq(rng, n, dist):
+    """pairs of conformant regions for the domain tageq: identical; differing in alignment padding only; differing in one
+    byte inside one tag; the same kinds with other contents"""
+    cases = []
+    g = ConformantGen(rng.getrandbits(32))
+    for _ in range(n):
+        ks = list(g.KINDS)
+        g.r.shuffle(ks)
+        ks = ks[:g.r.choice([3, 6, 10, len(ks)])]
+        a = bytearray(E.mbi([getattr(g, k)() for k in ks]))
+        tags = []                              # (offset, size) of every tag of the walk
+        off = 8
+        while off + 8 <= len(a):
+            sz = int.from_bytes(a[off + 4:off + 8], "little")
+            if sz < 8:
+                break
+            tags.append((off, sz))
+            off += (sz + 7) // 8 * 8
+        b = bytearray(a)
+        x = g.r.random()
+        if x < 0.25:
+            kind = "identical"
+        elif x < 0.55:
+            kind = "padding_differs"
+            for (o, sz) in tags:
+                for i in range(o + sz, o + (sz + 7) // 8 * 8):
+                    b[i] ^= g.r.choice([0xFF, 0x01, 0x80])
+        elif x < 0.9:
+            kind = "one_byte_differs"
+            (o, sz) = g.r.choice(tags[:-1] or tags)
+            if sz > 8:
+                i = o + g.r.randrange(8, sz)
+                b[i] ^= g.r.choice([0xFF, 0x01, 0x80])
+                if o + 555 == i:               # keep the VBE memory-model byte a declared discriminant
+                    b[i] = (a[i] + 1) % 8
+        else:
+            kind = "other_contents"
+            b = bytearray(E.mbi([getattr(g, k)() for k in ks]))
+        count(dist, "tageq_" + kind)
+        cases.append("tageq %s %s" % (hx(bytes(a)), hx(bytes(b))))
+    return cases
+
+
 def gen_C04(rng, tier):
     dist = {}
     cases = []
@@ -1183,6 +1226,8 @@ def gen_C05(rng, tier):
         efi = random.Random(rng.getrandbits(32)).sample(efi, 400)
     cases += efi
     dist["efi_maps"] = len(efi)
+    # `==` between typed tags never looks at alignment padding and sees every byte of the fields and of the variable part
+    cases += gen_tageq(rng, 3000 if tier == "thorough" else 150, dist)
     # the generic structure obtained from a slice (ref_from_slice): declared sizes around the slice length, both tag header kinds
     for h in (1, 2):
         for n in range(8, 49, 8):
